@@ -29,8 +29,9 @@ k("ts_accessors_return_configuration", *TS, ["C03", "C09"], "lemma", function="T
 k("ts_lemma_terminal_is_constant", *TS, ["C02", "C07"], "lemma", function="TimeScale::get_position (contract)",
   clause="contract => once terminal, later times are terminal with the same value")
 for mode in ("none", "times", "infinite"):
-    k("ts_lemma_duration_agrees_%s" % mode, *TS, ["C03", "C07"], "lemma", function="TimeScale::{get_position,get_duration} (contracts)",
-      clause="contracts => for EVERY configuration (no exactness side condition): not terminal before the reported total duration; from it on (t >= total, what is_ended tests) every allowed position is the terminal one (Ended, or the held end of the last cycle at t == total): 100%, or 0% when reversing; never terminal under infinite repeat", solver="cvc5", timeout=1500)
+    # the Times case is one 13-17 minute cvc5 query: thorough tier only (the quick tier must stay well under 15 minutes per check)
+    k("ts_lemma_duration_agrees_%s" % mode, *TS, ["C03", "C07"], "lemma", tier=("thorough" if mode == "times" else "quick"), function="TimeScale::{get_position,get_duration} (contracts)",
+      clause="contracts => for EVERY configuration (no exactness side condition): not terminal before the reported total duration; from it on (t >= total, what is_ended tests) every allowed position is the terminal one (Ended, or the held end of the last cycle at t == total): 100%, or 0% when reversing; never terminal under infinite repeat", solver="cvc5", timeout=(800 if mode == "times" else 400))
 k("ts_lemma_reverse_mirror", *TS, ["C03"], "lemma", function="TimeScale::get_position (contract)",
   clause="contract => falling half mirrors rising half (1-r exact)")
 k("ts_lemma_endpoint_arithmetic", *TS, ["C02", "C03"], "lemma", clause="d/d == 1, 0/d == 0, doubled/mirrored forms exact", solver="cvc5")
@@ -83,7 +84,8 @@ A = {
 P = {
  "C03": {"assumptions": [A["A1"], A["KANI"], A["FLOAT"], "generated <T>Timeline accessors delegate to TimeScale (checked by C17's harnesses, not here)"],
          "trusted_base": ["Kani 0.68.0", "CBMC 6.11.0", "cvc5 1.0.3", "CaDiCaL 3.0.0", "A1 fmod axioms"],
-         "not_decided": ["interior linearity is stated with tolerance 4*f32::EPSILON against the f32 formula, not against real arithmetic",
+         "not_decided": ["QUICK TIER: the Repeat::Times case of ts_lemma_duration_agrees (agreement of the reported duration with the behaviour, from the contracts) is a single 13-17 minute cvc5 query and runs in the thorough tier only; the six mode proofs of the get_position contract itself, which carry every clause of C03, run in both tiers",
+                         "interior linearity is stated with tolerance 4*f32::EPSILON against the f32 formula, not against real arithmetic",
                          "periodicity is by construction of the contract: the position depends on the time since the delay only through fmod(t, cycle) and the comparisons t>=cycle, t>cycle"]},
 }
 exec(open(os.path.join(VERIF, "tools", "gen_registry_props.py")).read()) if os.path.exists(os.path.join(VERIF, "tools", "gen_registry_props.py")) else None
